@@ -25,6 +25,7 @@ import (
 	"time"
 
 	"github.com/tmpim/casket"
+	"github.com/tmpim/casket/caskethttp/httpserver"
 	_ "github.com/tmpim/casket/caskethttp"
 )
 
@@ -43,6 +44,7 @@ type Script struct {
 	Steps      []Step   `json:"steps"`
 	Probes     []string `json:"probes"`                // "port|host" pairs to GET / after every step
 	ServerType string   `json:"server_type,omitempty"` // default "http"
+	QUIC       bool     `json:"quic,omitempty"`        // run with the -quic flag on (every HTTP server also binds its UDP port)
 }
 
 // Obs is what the child observed after a step.
@@ -144,6 +146,24 @@ func listening() []string {
 			}
 		}
 	}
+	// bound UDP sockets of this process (QUIC), reported as "udp:<port>"
+	for _, f := range []string{"/proc/self/net/udp", "/proc/self/net/udp6"} {
+		b, err := os.ReadFile(f)
+		if err != nil {
+			continue
+		}
+		for i, line := range strings.Split(string(b), "\n") {
+			fs := strings.Fields(line)
+			if i == 0 || len(fs) < 10 || !inodes[fs[9]] {
+				continue
+			}
+			if j := strings.LastIndex(fs[1], ":"); j >= 0 {
+				if p, err := strconv.ParseInt(fs[1][j+1:], 16, 32); err == nil && p != 0 {
+					ports["udp:"+strconv.Itoa(int(p))] = true
+				}
+			}
+		}
+	}
 	var out []string
 	for p := range ports {
 		out = append(out, p)
@@ -196,6 +216,9 @@ func run(scriptPath string) int {
 		stype = "http"
 	}
 	conf := filepath.Join(sc.Dir, "Casketfile")
+	if sc.QUIC {
+		httpserver.QUIC = true
+	}
 	casket.RegisterCasketfileLoader("verif", fileLoader{conf})
 	casket.TrapSignals()
 	// casket registers its handlers in goroutines it has just started; a signal
@@ -209,6 +232,7 @@ func run(scriptPath string) int {
 	}
 	var inst *casket.Instance
 	occupied := map[string]net.Listener{}
+	occupiedUDP := map[string]net.PacketConn{}
 	for _, st := range sc.Steps {
 		o := Obs{Op: st.Op}
 		t0 := time.Now()
@@ -268,6 +292,12 @@ func run(scriptPath string) int {
 				done <- fmt.Errorf("HUNG-RELOAD")
 			case "writefile":
 				done <- os.WriteFile(filepath.Join(sc.Dir, filepath.Base(st.Path)), []byte(st.Text), 0o644)
+			case "occupy-udp":
+				pc, err := net.ListenPacket("udp", ":"+st.Port)
+				if err == nil {
+					occupiedUDP[st.Port] = pc
+				}
+				done <- err
 			case "occupy":
 				l, err := net.Listen("tcp", "127.0.0.1:"+st.Port)
 				if err == nil {
@@ -357,8 +387,10 @@ func run(scriptPath string) int {
 		o.Listening = listening()
 		var mine []string
 		for _, p := range o.Listening {
-			if occupied[p] == nil {
+			if occupied[p] == nil && occupiedUDP[strings.TrimPrefix(p, "udp:")] == nil {
 				mine = append(mine, p)
+			} else if !strings.HasPrefix(p, "udp:") && occupied[p] == nil {
+				mine = append(mine, p) // the TCP port with the same number as an occupied UDP port is ours
 			}
 		}
 		o.Listening = mine
